@@ -1,1 +1,701 @@
-//! Helpers of group 'access' (see GUIDE.md).
+//! Helpers of group 'access' (C23, C24, C25): identities, requests made *as a user*, the
+//! high-privilege closure, and an independent grant model that interprets the access control
+//! profile ENTRIES stored in the database (never the server's access module).
+use crate::fil::{self, MEntry, F};
+use kanidmd_lib::entry::{Entry, EntryCommitted, EntrySealed};
+use kanidmd_lib::prelude::*;
+use kanidmd_lib::verif_hooks::ident;
+use std::collections::{BTreeMap, BTreeSet};
+use std::sync::Arc;
+
+pub type SEntry = Arc<Entry<EntrySealed, EntryCommitted>>;
+
+pub fn uuid_filter_all(u: Uuid) -> Filter<FilterInvalid> {
+    Filter::new(f_eq(Attribute::Uuid, PartialValue::Uuid(u)))
+}
+
+/// Identity of the stored entry `u` with the given scope (memberof is taken from the stored entry,
+/// exactly as the server does when it builds an identity from an account entry).
+pub fn ident_of<'a, T: QueryServerTransaction<'a>>(txn: &mut T, u: Uuid, readwrite: bool) -> Result<Identity, OperationError> {
+    let e = txn.internal_search_uuid(u)?;
+    Ok(if readwrite {
+        ident::user_readwrite(e)
+    } else {
+        ident::user_readonly(e)
+    })
+}
+
+/// A modify request made as `ident` on exactly the entry `target` (external-style: hidden entries
+/// are masked from the executed filter, the original filter is what access control sees).
+pub fn modify_as(w: &mut QueryServerWriteTransaction<'_>, ident: &Identity, target: Uuid, mods: Vec<Modify>) -> Result<(), OperationError> {
+    let ml = ModifyList::new_list(mods);
+    let me = ModifyEvent::from_internal_parts(ident.clone(), &ml, &uuid_filter_all(target), w)?;
+    w.modify(&me)
+}
+
+/// The outcome classes of a write attempt that the checks distinguish.
+#[derive(Debug, Clone, Copy, PartialEq, Eq, PartialOrd, Ord)]
+pub enum WriteOutcome {
+    /// the operation was applied
+    Applied,
+    /// refused by the write access decision
+    Denied,
+    /// the target is not visible to the caller (search access), so nothing was attempted
+    NotVisible,
+    /// any other error (schema, plugin, ...): reached code behind the access decision or failed before it
+    Other,
+}
+
+pub fn classify<T>(r: &Result<T, OperationError>) -> WriteOutcome {
+    match r {
+        Ok(_) => WriteOutcome::Applied,
+        Err(OperationError::AccessDenied) | Err(OperationError::NotAuthorised) => WriteOutcome::Denied,
+        Err(OperationError::NoMatchingEntries) => WriteOutcome::NotVisible,
+        Err(_) => WriteOutcome::Other,
+    }
+}
+
+/// Plain-data view of all stored entries (attribute -> proto strings).
+pub fn mentries(entries: &[SEntry]) -> Vec<MEntry> {
+    entries.iter().map(|e| MEntry::from_entry(e)).collect()
+}
+
+fn uuids_of(m: &MEntry, attr: &str) -> Vec<Uuid> {
+    m.get(attr)
+        .map(|vs| vs.iter().filter_map(|s| Uuid::parse_str(s).ok()).collect())
+        .unwrap_or_default()
+}
+
+pub fn has_class(m: &MEntry, c: &str) -> bool {
+    m.get("class").map(|s| s.contains(c)).unwrap_or(false)
+}
+
+pub fn is_live(m: &MEntry) -> bool {
+    !has_class(m, "recycled") && !has_class(m, "tombstone")
+}
+
+/// Everything that is (directly or transitively) a member of `root`: BFS over the stored
+/// `member` and `dynmember` edges of live groups. `root` itself is included only if it is reachable
+/// from itself. Independent of the server's memberof attribute.
+pub fn member_closure(all: &[MEntry], root: Uuid) -> BTreeSet<Uuid> {
+    let by: BTreeMap<Uuid, &MEntry> = all.iter().filter(|m| is_live(m)).map(|m| (m.uuid, m)).collect();
+    let mut seen = BTreeSet::new();
+    let mut todo = vec![root];
+    while let Some(g) = todo.pop() {
+        let Some(m) = by.get(&g) else { continue };
+        if !has_class(m, "group") {
+            continue;
+        }
+        for c in uuids_of(m, "member").into_iter().chain(uuids_of(m, "dynmember")) {
+            if by.contains_key(&c) && seen.insert(c) {
+                todo.push(c);
+            }
+        }
+    }
+    seen
+}
+
+/// Groups (transitively) containing `who`, by BFS over stored member/dynmember edges.
+pub fn groups_of(all: &[MEntry], who: Uuid) -> BTreeSet<Uuid> {
+    let live: Vec<&MEntry> = all.iter().filter(|m| is_live(m) && has_class(m, "group")).collect();
+    let mut out = BTreeSet::new();
+    let mut todo = vec![who];
+    while let Some(x) = todo.pop() {
+        for g in &live {
+            if (uuids_of(g, "member").contains(&x) || uuids_of(g, "dynmember").contains(&x)) && out.insert(g.uuid) {
+                todo.push(g.uuid);
+            }
+        }
+    }
+    out
+}
+
+pub fn name_of(m: &MEntry) -> String {
+    m.get("name").and_then(|s| s.iter().next().cloned()).unwrap_or_else(|| m.uuid.to_string())
+}
+
+// ---------------------------------------------------------------------------------------------
+// Grant model (C23 / C24): interpretation of the stored access control profile entries.
+// ---------------------------------------------------------------------------------------------
+
+/// Translation of the JSON text of a stored `acp_targetscope` (proto filter) into the harness AST.
+pub fn f_of_proto_json(v: &serde_json::Value) -> Option<F> {
+    if v.as_str() == Some("self") {
+        return Some(F::SelfUuid);
+    }
+    let o = v.as_object()?;
+    if o.len() != 1 {
+        return None;
+    }
+    let (k, body) = o.iter().next()?;
+    let pair = |b: &serde_json::Value| -> Option<(String, String)> {
+        let a = b.as_array()?;
+        Some((a.first()?.as_str()?.to_lowercase(), a.get(1)?.as_str()?.to_string()))
+    };
+    Some(match k.as_str() {
+        "eq" => {
+            let (a, v) = pair(body)?;
+            F::Eq(a, v)
+        }
+        "cnt" => {
+            let (a, v) = pair(body)?;
+            F::Cnt(a, v)
+        }
+        "pres" => F::Pres(body.as_str()?.to_lowercase()),
+        "or" => F::Or(body.as_array()?.iter().map(f_of_proto_json).collect::<Option<Vec<_>>>()?),
+        "and" => F::And(body.as_array()?.iter().map(f_of_proto_json).collect::<Option<Vec<_>>>()?),
+        "andnot" => F::Not(Box::new(f_of_proto_json(body)?)),
+        "self" => F::SelfUuid,
+        _ => return None,
+    })
+}
+
+pub fn f_of_proto_str(s: &str) -> Option<F> {
+    if s.trim() == "\"self\"" {
+        return Some(F::SelfUuid);
+    }
+    let v: serde_json::Value = serde_json::from_str(s).ok()?;
+    if v.as_str() == Some("self") {
+        return Some(F::SelfUuid);
+    }
+    f_of_proto_json(&v)
+}
+
+pub use fil::eval as eval_filter;
+
+#[derive(Debug, Clone, PartialEq, Eq)]
+pub enum Recv {
+    Groups(BTreeSet<Uuid>),
+    EntryManager,
+    None,
+}
+
+/// One stored access control profile, as plain data.
+#[derive(Debug, Clone)]
+pub struct Acp {
+    pub name: String,
+    pub uuid: Uuid,
+    pub enabled: bool,
+    pub receiver: Recv,
+    /// None = no target class (grants nothing); Some(None) = target present but not understood by
+    /// the model (treated as matching everything: permissive); Some(Some(f)) = parsed scope.
+    pub target: Option<Option<F>>,
+    pub search: bool,
+    pub modify: bool,
+    pub create: bool,
+    pub delete: bool,
+    pub search_attrs: BTreeSet<String>,
+    pub mod_pres_attrs: BTreeSet<String>,
+    pub mod_rem_attrs: BTreeSet<String>,
+    pub mod_pres_classes: BTreeSet<String>,
+    pub mod_rem_classes: BTreeSet<String>,
+    pub create_attrs: BTreeSet<String>,
+    pub create_classes: BTreeSet<String>,
+}
+
+fn strs(m: &MEntry, a: &str) -> BTreeSet<String> {
+    m.get(a).cloned().unwrap_or_default()
+}
+
+/// All live access control profile entries of the database.
+pub fn acps_of(all: &[MEntry]) -> Vec<Acp> {
+    let mut out = Vec::new();
+    for m in all.iter().filter(|m| is_live(m) && has_class(m, "access_control_profile")) {
+        let receiver = if has_class(m, "access_control_receiver_group") {
+            Recv::Groups(uuids_of(m, "acp_receiver_group").into_iter().collect())
+        } else if has_class(m, "access_control_receiver_entry_manager") {
+            Recv::EntryManager
+        } else {
+            Recv::None
+        };
+        let target = if has_class(m, "access_control_target_scope") {
+            Some(m.get("acp_targetscope").and_then(|s| s.iter().next()).and_then(|s| f_of_proto_str(s)))
+        } else {
+            None
+        };
+        let mut search_attrs = strs(m, "acp_search_attr");
+        if search_attrs.contains("memberof") {
+            // documented: the ability to read memberof implies directmemberof
+            search_attrs.insert("directmemberof".into());
+        }
+        let classes = strs(m, "acp_modify_class");
+        let pc = m.get("acp_modify_present_class").cloned().unwrap_or_else(|| classes.clone());
+        let rc = m.get("acp_modify_remove_class").cloned().unwrap_or_else(|| classes.clone());
+        out.push(Acp {
+            name: name_of(m),
+            uuid: m.uuid,
+            enabled: !m.get("acp_enable").map(|s| s.contains("false")).unwrap_or(false),
+            receiver,
+            target,
+            search: has_class(m, "access_control_search"),
+            modify: has_class(m, "access_control_modify"),
+            create: has_class(m, "access_control_create"),
+            delete: has_class(m, "access_control_delete"),
+            search_attrs,
+            mod_pres_attrs: strs(m, "acp_modify_presentattr"),
+            mod_rem_attrs: strs(m, "acp_modify_removedattr"),
+            mod_pres_classes: pc,
+            mod_rem_classes: rc,
+            create_attrs: strs(m, "acp_create_attr"),
+            create_classes: strs(m, "acp_create_class"),
+        });
+    }
+    out
+}
+
+/// The caller, as the model sees it.
+#[derive(Debug, Clone)]
+pub struct Who {
+    pub uuid: Uuid,
+    /// groups by own BFS over stored member/dynmember edges, united with the stored memberof
+    /// (the more permissive of the two readings of "is a member of")
+    pub groups: BTreeSet<Uuid>,
+    pub anonymous: bool,
+}
+
+pub fn who_of(all: &[MEntry], uuid: Uuid) -> Who {
+    let mut groups = groups_of(all, uuid);
+    if let Some(me) = all.iter().find(|m| m.uuid == uuid) {
+        groups.extend(uuids_of(me, "memberof"));
+    }
+    Who {
+        uuid,
+        groups,
+        anonymous: uuid == UUID_ANONYMOUS,
+    }
+}
+
+impl Acp {
+    pub fn receiver_matches(&self, who: &Who, e: &MEntry) -> bool {
+        match &self.receiver {
+            Recv::Groups(g) => g.iter().any(|x| who.groups.contains(x)),
+            Recv::EntryManager => uuids_of(e, "entry_managed_by")
+                .iter()
+                .any(|m| *m == who.uuid || who.groups.contains(m)),
+            Recv::None => false,
+        }
+    }
+    pub fn target_matches(&self, who: &Who, e: &MEntry) -> bool {
+        match &self.target {
+            None => false,
+            Some(None) => true,
+            Some(Some(f)) => fil::eval(f, e, Some(who.uuid)),
+        }
+    }
+    pub fn applies(&self, who: &Who, e: &MEntry) -> bool {
+        self.enabled && self.receiver_matches(who, e) && self.target_matches(who, e)
+    }
+}
+
+fn set_of(l: &[&str]) -> BTreeSet<String> {
+    l.iter().map(|s| s.to_string()).collect()
+}
+
+/// Attributes of `e` that `who` may read: union over applicable search profiles plus the built-in
+/// visibility rules (OAuth2 client for holders of a mapped scope, application for members of its
+/// linked group, sync account for its own synchronised accounts).
+pub fn search_allowed(acps: &[Acp], who: &Who, e: &MEntry, all: &[MEntry]) -> BTreeSet<String> {
+    let mut out = BTreeSet::new();
+    for a in acps.iter().filter(|a| a.search && a.applies(who, e)) {
+        out.extend(a.search_attrs.iter().cloned());
+    }
+    if !who.anonymous {
+        if has_class(e, "oauth2_resource_server") {
+            let keys = e
+                .get("oauth2_rs_scope_map")
+                .into_iter()
+                .flatten()
+                .filter_map(|s| s.get(..36).and_then(|u| Uuid::parse_str(u).ok()));
+            if keys.into_iter().any(|k| who.groups.contains(&k)) {
+                out.extend(set_of(&["class", "displayname", "uuid", "name", "oauth2_rs_origin_landing", "image"]));
+            }
+        }
+        if has_class(e, "application") && uuids_of(e, "linked_group").iter().any(|g| who.groups.contains(g)) {
+            out.extend(set_of(&["class", "displayname", "uuid", "name", "linked_group"]));
+        }
+        if has_class(e, "sync_account") {
+            if let Some(me) = all.iter().find(|m| m.uuid == who.uuid) {
+                if has_class(me, "sync_object") && has_class(me, "account") && uuids_of(me, "sync_parent_uuid").contains(&e.uuid) {
+                    out.extend(set_of(&["class", "uuid", "sync_credential_portal"]));
+                }
+            }
+        }
+    }
+    out
+}
+
+// ---------------------------------------------------------------------------------------------
+// Generated worlds shared by C23 and C24.
+// ---------------------------------------------------------------------------------------------
+pub mod world {
+    use crate::fil::{Alphabet, F};
+    use crate::pop::{self, Kind};
+    use crate::srv::{self, ct};
+    use crate::ops;
+    use kanidmd_lib::prelude::*;
+    use kanidmd_lib::value::Value;
+    use proptest::prelude::*;
+    use serde::{Deserialize, Serialize};
+
+pub const P_NAMES: [&str; 5] = ["anna", "annabel", "bob", "carl", "dora"];
+pub const S_NAMES: [&str; 2] = ["svc_a", "svc_ab"];
+pub const G_NAMES: [&str; 5] = ["grp_a", "grp_ab", "grp_b", "grp_c", "grp_d"];
+pub const O_NAMES: [&str; 1] = ["oa_x"];
+pub const ATTR_POOL: [&str; 12] = [
+    "class",
+    "name",
+    "uuid",
+    "displayname",
+    "description",
+    "mail",
+    "legalname",
+    "gidnumber",
+    "member",
+    "memberof",
+    "entry_managed_by",
+    "spn",
+];
+/// shipped groups that generated accounts may be put into (index = role id)
+pub const ROLES: [Uuid; 7] = [
+    UUID_IDM_PEOPLE_PII_READ,
+    UUID_IDM_ACCOUNT_MAIL_READ,
+    UUID_IDM_UNIX_AUTHENTICATION_READ,
+    UUID_IDM_GROUP_ADMINS,
+    UUID_IDM_RECYCLE_BIN_ADMINS,
+    UUID_IDM_RADIUS_SERVERS,
+    UUID_IDM_PEOPLE_ADMINS,
+];
+
+#[derive(Debug, Clone, Copy, PartialEq, Eq, Hash, PartialOrd, Ord, Serialize, Deserialize)]
+pub enum Ent {
+    P(u8),
+    S(u8),
+    G(u8),
+    O(u8),
+}
+
+#[derive(Debug, Clone, PartialEq, Eq, Serialize, Deserialize)]
+pub struct ESpec {
+    pub desc: Option<u8>,
+    pub mail: bool,
+    pub legal: Option<u8>,
+    pub gid: bool,
+    pub mgr: Option<Ent>,
+    /// 0 live, 1 recycled, 2 tombstone
+    pub state: u8,
+    pub roles: Vec<u8>,
+    pub members: Vec<Ent>,
+}
+
+
+#[derive(Debug, Clone, PartialEq, Eq, Serialize, Deserialize)]
+pub struct Pop {
+    pub persons: Vec<ESpec>,
+    pub services: Vec<ESpec>,
+    pub groups: Vec<ESpec>,
+    pub oauth2: Vec<u8>,
+}
+
+pub fn arb_pop() -> impl Strategy<Value = Pop> {
+    (
+        proptest::collection::vec(arb_espec(false), 3..=5),
+        proptest::collection::vec(arb_espec(false), 1..=2),
+        proptest::collection::vec(arb_espec(true), 3..=5),
+        proptest::collection::vec(0u8..5, 0..=1),
+    )
+        .prop_map(|(persons, services, groups, oauth2)| Pop {
+            persons,
+            services,
+            groups,
+            oauth2,
+        })
+}
+
+/// Every reference of the population points at an entity of this population.
+pub fn norm_pop(c: &Pop) -> Pop {
+    let mut n = c.clone();
+    let fix = |s: &mut ESpec| {
+        s.mgr = s.mgr.map(|m| norm_ent(m, c));
+        for m in s.members.iter_mut() {
+            *m = norm_ent(*m, c);
+        }
+    };
+    n.persons.iter_mut().for_each(fix);
+    n.services.iter_mut().for_each(fix);
+    n.groups.iter_mut().for_each(fix);
+    n
+}
+
+pub fn live_spec(e: Ent, c: &Pop) -> bool {
+    spec_of(e, c).map(|s| s.state == 0).unwrap_or(true)
+}
+
+/// The live accounts of the population, in a fixed order.
+pub fn live_accounts(c: &Pop) -> Vec<Ent> {
+    let mut accts: Vec<Ent> = (0..c.persons.len() as u8)
+        .map(Ent::P)
+        .chain((0..c.services.len() as u8).map(Ent::S))
+        .filter(|e| live_spec(*e, c))
+        .collect();
+    accts.sort();
+    accts
+}
+
+pub fn uuid_of(e: Ent) -> Uuid {
+    match e {
+        Ent::P(i) => pop::uuid_of(Kind::Person, i as u32 % P_NAMES.len() as u32),
+        Ent::S(i) => pop::uuid_of(Kind::Service, i as u32 % S_NAMES.len() as u32),
+        Ent::G(i) => pop::uuid_of(Kind::Group, i as u32 % G_NAMES.len() as u32),
+        Ent::O(i) => pop::uuid_of(Kind::OAuth2, i as u32 % O_NAMES.len() as u32),
+    }
+}
+
+// ---- generators ---------------------------------------------------------------------------------
+
+pub fn arb_ent() -> impl Strategy<Value = Ent> {
+    prop_oneof![
+        3 => (0u8..5).prop_map(Ent::P),
+        1 => (0u8..2).prop_map(Ent::S),
+        3 => (0u8..5).prop_map(Ent::G),
+    ]
+}
+
+pub fn arb_espec(group: bool) -> impl Strategy<Value = ESpec> {
+    (
+        proptest::option::weighted(0.6, 0u8..4),
+        proptest::bool::weighted(0.6),
+        proptest::option::weighted(0.4, 0u8..4),
+        proptest::bool::weighted(0.4),
+        proptest::option::weighted(0.45, arb_ent()),
+        prop_oneof![8 => Just(0u8), 2 => Just(1u8), 1 => Just(2u8)],
+        proptest::collection::vec(0u8..ROLES.len() as u8, 0..3),
+        proptest::collection::vec(arb_ent(), if group { 0..4 } else { 0..1 }),
+    )
+        .prop_map(|(desc, mail, legal, gid, mgr, state, roles, members)| ESpec {
+            desc,
+            mail,
+            legal,
+            gid,
+            mgr,
+            state,
+            roles,
+            members,
+        })
+}
+
+pub fn alphabet() -> Alphabet {
+    let u = |e: Ent| uuid_of(e).as_hyphenated().to_string();
+    let own = |v: Vec<String>| -> Vec<String> { v };
+    let mut al = Alphabet {
+        attrs: vec![
+            (
+                "class".into(),
+                own(vec!["person".into(), "group".into(), "account".into(), "service_account".into(), "recycled".into(), "oauth2_resource_server".into()]),
+            ),
+            ("name".into(), own(vec!["anna".into(), "annabel".into(), "bob".into(), "grp_a".into(), "svc_a".into()])),
+            ("description".into(), ops::DESCS.iter().map(|s| s.to_string()).collect()),
+            ("displayname".into(), own(vec!["anna".into(), "bob".into(), "grp".into()])),
+            ("mail".into(), own(vec!["anna@example.com".into(), "bob@example.com".into()])),
+            ("legalname".into(), ops::DESCS.iter().map(|s| s.to_string()).collect()),
+            ("gidnumber".into(), own(vec!["70000".into(), "70002".into(), "70011".into()])),
+            ("memberof".into(), vec![u(Ent::G(0)), u(Ent::G(1)), UUID_IDM_PEOPLE_PII_READ.as_hyphenated().to_string()]),
+            ("member".into(), vec![u(Ent::P(0)), u(Ent::P(2)), u(Ent::G(1))]),
+            ("entry_managed_by".into(), vec![u(Ent::P(0)), u(Ent::G(0)), u(Ent::G(2))]),
+            ("uuid".into(), vec![u(Ent::P(0)), u(Ent::P(1)), u(Ent::G(0)), u(Ent::S(0))]),
+        ],
+        stw_enw: true,
+        self_uuid: true,
+        invalid: false,
+    };
+    al.self_uuid = true;
+    al
+}
+
+pub fn norm_ent(e: Ent, c: &Pop) -> Ent {
+    match e {
+        Ent::P(i) => Ent::P(i % c.persons.len() as u8),
+        Ent::S(i) => Ent::S(i % c.services.len() as u8),
+        Ent::G(i) => Ent::G(i % c.groups.len() as u8),
+        Ent::O(i) => {
+            if c.oauth2.is_empty() {
+                Ent::G(i % c.groups.len() as u8)
+            } else {
+                Ent::O(i % c.oauth2.len() as u8)
+            }
+        }
+    }
+}
+
+pub fn spec_of<'a>(e: Ent, c: &'a Pop) -> Option<&'a ESpec> {
+    match e {
+        Ent::P(i) => c.persons.get(i as usize),
+        Ent::S(i) => c.services.get(i as usize),
+        Ent::G(i) => c.groups.get(i as usize),
+        Ent::O(_) => None,
+    }
+}
+
+pub fn no_empty_groups(f: &F) -> F {
+    match f {
+        F::And(l) if l.is_empty() => F::Pres("class".into()),
+        F::Or(l) if l.is_empty() => F::Eq("class".into(), "no_such_class".into()),
+        F::And(l) => F::And(l.iter().map(no_empty_groups).collect()),
+        F::Or(l) => F::Or(l.iter().map(no_empty_groups).collect()),
+        F::Not(x) => F::Not(Box::new(no_empty_groups(x))),
+        other => other.clone(),
+    }
+}
+
+pub fn decorate(mut e: pop::NewEntry, s: &ESpec, name: &str, gid: u32, posix: EntryClass, person: bool) -> pop::NewEntry {
+    if let Some(d) = s.desc {
+        e.add_ava(Attribute::Description, Value::new_utf8s(ops::DESCS[d as usize % ops::DESCS.len()]));
+    }
+    if person {
+        if s.mail {
+            e.add_ava(Attribute::Mail, Value::new_email_address_primary_s(&format!("{name}@example.com")).expect("mail"));
+        }
+        if let Some(l) = s.legal {
+            e.add_ava(Attribute::LegalName, Value::new_utf8s(ops::DESCS[l as usize % ops::DESCS.len()]));
+        }
+    }
+    if s.gid {
+        e.add_ava(Attribute::Class, posix.to_value());
+        e.add_ava(Attribute::GidNumber, Value::Uint32(gid));
+    }
+    e
+}
+
+/// Proto (JSON) form of a generated target scope. Stw/Enw/Lt are not expressible: mapped to Cnt / Pres.
+pub fn proto_of(f: &F) -> Option<ProtoFilter> {
+    Some(match f {
+        F::Eq(a, v) => ProtoFilter::Eq(a.clone(), v.clone()),
+        F::Cnt(a, v) | F::Stw(a, v) | F::Enw(a, v) => ProtoFilter::Cnt(a.clone(), v.clone()),
+        F::Pres(a) | F::Lt(a, _) => ProtoFilter::Pres(a.clone()),
+        F::And(l) => ProtoFilter::And(l.iter().map(proto_of).collect::<Option<Vec<_>>>()?),
+        F::Or(l) => ProtoFilter::Or(l.iter().map(proto_of).collect::<Option<Vec<_>>>()?),
+        F::Not(x) => ProtoFilter::AndNot(Box::new(proto_of(x)?)),
+        F::SelfUuid => ProtoFilter::SelfUuid,
+        F::Invalid(_) => return None,
+    })
+}
+
+/// Build a server holding the population; `extra` runs inside the last write transaction (after the
+/// recycled entries were deleted), e.g. to add generated access control profiles.
+pub async fn build_population<X>(c: &Pop, extra: X) -> Result<QueryServer, String>
+where
+    X: FnOnce(&mut QueryServerWriteTransaction<'_>) -> Result<(), String>,
+{
+    let qs = srv::new_qs().await;
+    let err = |s: &str, e: OperationError| format!("{s}: {e:?}");
+    let mut all_specs: Vec<(Ent, &ESpec)> = Vec::new();
+    {
+        let mut w = qs.write(ct(1)).await.map_err(|e| err("write", e))?;
+        let mut ents = Vec::new();
+        for (i, s) in c.persons.iter().enumerate() {
+            let n = P_NAMES[i];
+            ents.push(decorate(pop::person(uuid_of(Ent::P(i as u8)), n), s, n, 70000 + i as u32, EntryClass::PosixAccount, true));
+            all_specs.push((Ent::P(i as u8), s));
+        }
+        for (i, s) in c.services.iter().enumerate() {
+            let n = S_NAMES[i];
+            ents.push(decorate(pop::service(uuid_of(Ent::S(i as u8)), n), s, n, 70010 + i as u32, EntryClass::PosixAccount, false));
+            all_specs.push((Ent::S(i as u8), s));
+        }
+        let exists = |e: &Ent| match e {
+            Ent::P(i) => (*i as usize) < c.persons.len(),
+            Ent::S(i) => (*i as usize) < c.services.len(),
+            Ent::G(i) => (*i as usize) < c.groups.len(),
+            Ent::O(i) => (*i as usize) < c.oauth2.len(),
+        };
+        for (i, s) in c.groups.iter().enumerate() {
+            let n = G_NAMES[i];
+            let ms: Vec<Uuid> = s.members.iter().filter(|m| exists(m)).map(|m| uuid_of(*m)).collect();
+            ents.push(decorate(pop::group(uuid_of(Ent::G(i as u8)), n, &ms), s, n, 70020 + i as u32, EntryClass::PosixGroup, false));
+            all_specs.push((Ent::G(i as u8), s));
+        }
+        for (i, g) in c.oauth2.iter().enumerate() {
+            let mut e: pop::NewEntry = kanidmd_lib::entry::Entry::new();
+            e.add_ava(Attribute::Class, EntryClass::Object.to_value());
+            e.add_ava(Attribute::Class, EntryClass::Account.to_value());
+            e.add_ava(Attribute::Class, EntryClass::OAuth2ResourceServer.to_value());
+            e.add_ava(Attribute::Class, EntryClass::OAuth2ResourceServerBasic.to_value());
+            e.add_ava(Attribute::Uuid, Value::Uuid(uuid_of(Ent::O(i as u8))));
+            e.add_ava(Attribute::Name, Value::new_iname(O_NAMES[i]));
+            e.add_ava(Attribute::DisplayName, Value::new_utf8s(O_NAMES[i]));
+            e.add_ava(Attribute::OAuth2RsOriginLanding, Value::new_url_s("https://demo.example.com").expect("url"));
+            let gi = *g as usize % c.groups.len();
+            e.add_ava(
+                Attribute::OAuth2RsScopeMap,
+                Value::new_oauthscopemap(uuid_of(Ent::G(gi as u8)), ["read".to_string()].into_iter().collect()).expect("scopemap"),
+            );
+            ents.push(e);
+        }
+        w.internal_create(ents).map_err(|e| err("create population", e))?;
+        // entry managers and shipped-role memberships (second step: targets must exist)
+        for (ent, s) in &all_specs {
+            if let Some(m) = s.mgr.filter(|m| exists(m)) {
+                w.internal_modify(
+                    &super::uuid_filter_all(uuid_of(*ent)),
+                    &ModifyList::new_list(vec![Modify::Present(Attribute::EntryManagedBy, Value::Refer(uuid_of(m)))]),
+                )
+                .map_err(|e| err("entry manager", e))?;
+            }
+            if !matches!(ent, Ent::G(_)) {
+                for r in &s.roles {
+                    w.internal_modify(
+                        &super::uuid_filter_all(ROLES[*r as usize % ROLES.len()]),
+                        &ModifyList::new_list(vec![Modify::Present(Attribute::Member, Value::Refer(uuid_of(*ent)))]),
+                    )
+                    .map_err(|e| err("role", e))?;
+                }
+            }
+        }
+        w.commit().map_err(|e| err("commit", e))?;
+    }
+    // tombstones: delete, then purge after the recycle bin age
+    let mut now = 2u64;
+    let tomb: Vec<Uuid> = all_specs.iter().filter(|(_, s)| s.state == 2).map(|(e, _)| uuid_of(*e)).collect();
+    if !tomb.is_empty() {
+        let mut w = qs.write(ct(now)).await.map_err(|e| err("write", e))?;
+        for u in &tomb {
+            w.internal_delete(&Filter::new_ignore_hidden(f_eq(Attribute::Uuid, PartialValue::Uuid(*u))))
+                .map_err(|e| err("delete", e))?;
+        }
+        w.commit().map_err(|e| err("commit", e))?;
+        now += RECYCLEBIN_MAX_AGE + 10;
+        let mut w = qs.write(ct(now)).await.map_err(|e| err("write", e))?;
+        w.purge_recycled().map_err(|e| err("purge_recycled", e))?;
+        w.commit().map_err(|e| err("commit", e))?;
+        now += 1;
+    }
+    {
+        let mut w = qs.write(ct(now)).await.map_err(|e| err("write", e))?;
+        for (e, s) in &all_specs {
+            if s.state == 1 {
+                w.internal_delete(&Filter::new_ignore_hidden(f_eq(Attribute::Uuid, PartialValue::Uuid(uuid_of(*e)))))
+                    .map_err(|e| err("delete", e))?;
+            }
+        }
+        extra(&mut w)?;
+        w.commit().map_err(|e| err("commit", e))?;
+    }
+    Ok(qs)
+}
+}
+
+/// Plain-data view of a not yet stored entry (as submitted by a create request).
+pub fn mentry_of_new(e: &crate::pop::NewEntry) -> MEntry {
+    let mut attrs = BTreeMap::new();
+    for (a, vs) in e.get_ava_iter() {
+        attrs.insert(a.to_string(), vs.to_proto_string_clone_iter().collect());
+    }
+    MEntry {
+        uuid: e.get_uuid().unwrap_or(Uuid::nil()),
+        attrs,
+    }
+}
+
+/// The stored entry `u` in whatever state (live, recycled, tombstone), as plain data.
+pub fn mentry_any<'a, T: QueryServerTransaction<'a>>(txn: &mut T, u: Uuid) -> Option<MEntry> {
+    txn.internal_search(uuid_filter_all(u)).ok()?.first().map(|e| MEntry::from_entry(e))
+}
